@@ -25,6 +25,7 @@ def Inc(sub):
 
 def fault_text(f, nl):
     body = {"parse": "vd__q = 1 ) ;", "runtime": 'vd__q = 1 + "a";', "runtimeexit": "vd__q = {vd__a = 1; 5} count [1];",
+            "parsestr": 'vd__q = 1 "st" ;', "runtimeexitstr": 'vd__q = {vd__a = 1; "t"} count [1];',
             "linemacroeol": "vd__m = [__LINE__" + nl + ", __FILE__];"}.get(f["kind"], "vd__m = [__LINE__, __FILE__];")
     return " " * f["pad"] + ('vd__s = "p""q"; ' if f.get("pre") else "") + body
 
@@ -120,7 +121,7 @@ def random_sources(rng, n):
     for _ in range(n):
         out.append({"lay": rand_layout(rng, rng.randint(3, 8), 2), "crlf": rng.random() < 0.3,
                     "nest": [rand_layout(rng, rng.randint(0, 4), 1) for _ in range(rng.choice([0, 0, 1, 2]))],
-                    "fault": (lambda k: {"kind": k, "pad": rng.randint(0, 4), "pre": 1 if k in ("parse", "runtime", "runtimeexit") and rng.random() < 0.3 else 0})(rng.choice(["parse", "runtime", "runtimeexit", "linemacro", "linemacroeol"]))})
+                    "fault": (lambda k: {"kind": k, "pad": rng.randint(0, 4), "pre": 1 if k in ("parse", "runtime", "runtimeexit", "parsestr", "runtimeexitstr") and rng.random() < 0.3 else 0})(rng.choice(["parse", "runtime", "runtimeexit", "parsestr", "runtimeexitstr", "linemacro", "linemacroeol"]))})
     return out
 
 
@@ -189,7 +190,7 @@ def run(rep, tier, seed, replay):
         "layout elements: plain line, // line, block comment of n lines (also with completely empty lines inside), #define, #define continued over n+1 lines, statement continued by n "
         "backslash-newlines, inactive/active conditional section of n lines, #include (nested <= 2 in the enumerated part), LF or CRLF line ends",
         "faults: stray ')' (parse diagnostic), 1 + \"a\" (runtime diagnostic and its stack-trace entries), a count block whose last expression is no boolean (raised after the block has run to its end; "
-        "the calling frame's entry names the call site), [__LINE__, __FILE__] on one line "
+        "the calling frame's entry names the call site), the same two faults with a string literal as the culprit (a token whose scanner moves the position itself), [__LINE__, __FILE__] on one line "
         "and with __LINE__ as the last thing of its line; "
         "at 0..4 columns of indentation; one fault per source, at the end of the main file or inside a chain of nested includes",
         "files are compared by base name (the scratch directory differs per case); columns are 0-based offsets of the offending token "
